@@ -142,10 +142,16 @@ class World(object):
         self.defs = {t: {'deps': [], 'targets': [], 'uptodate': []} for t in range(ntasks)}
         self.plan = {}
         self.db = 'deps-' + backend
+        self.scramble = 0        # > 0: real mtimes are unique but not monotone
         self.hashseed = None     # not None: every doit invocation in a fresh interpreter, PYTHONHASHSEED varied
 
     def tick(self):
+        """a fresh real mtime.  The code under test may only compare mtimes for equality, so the real mtimes need
+        not grow with the model's clock: with `scramble` they are unique but not monotone (an older file restored
+        with new content, `cp -p`, a checkout).  An implementation that orders mtimes is thereby exposed."""
         self.clock += 1
+        if self.scramble:
+            return T0 + (self.clock * 7919 + self.scramble) % 100003
         return self.clock
 
     def write(self, p, cid, mtime):
@@ -355,6 +361,7 @@ def run_history(case, stop_on_crash=True):
     w = World(case['backend'], case['checker'], case['ntasks'], case['npaths'])
     if case.get('hashseed') is not None:
         w.hashseed = int(case['hashseed'])
+    w.scramble = int(case.get('scramble') or 0)
     obs = []
     for op in case['ops']:
         kind = op[0]
@@ -798,11 +805,13 @@ def _model_would_crash(case, obs, i, steps, a, b):
 # rendering and shrinking
 
 def render(case):
+    extra = ''
+    if case.get('scramble'):
+        extra += ' mtimes-non-monotone(%d)' % case['scramble']
+    if case.get('hashseed') is not None:
+        extra += ' (every doit invocation in a fresh interpreter, PYTHONHASHSEED=%d+k)' % case['hashseed']
     out = ['backend=%s checker=%s tasks=%d files=%d%s' % (case['backend'], case['checker'], case['ntasks'],
-                                                         case['npaths'],
-                                                         '' if case.get('hashseed') is None else
-                                                         ' (every doit invocation in a fresh interpreter, '
-                                                         'PYTHONHASHSEED=%d+k)' % case['hashseed'])]
+                                                         case['npaths'], extra)]
     for op in case['ops']:
         k = op[0]
         if k == 'edit':
@@ -1070,7 +1079,7 @@ def gen_case(rng, parallel=False, informational=False):
         elif k == 'checker':
             ops.append(['checker', rng.choice(CHECKERS)])
     return {'backend': rng.choice(BACKENDS), 'checker': rng.choice(CHECKERS), 'ntasks': ntasks,
-            'npaths': sh.npaths, 'ops': ops}
+            'npaths': sh.npaths, 'ops': ops, 'scramble': rng.choice([0, rng.randrange(1, 90000), rng.randrange(1, 90000)])}
 
 
 def mutate_case(rng, case):
@@ -1134,7 +1143,7 @@ def exhaustive_cases(maxlen, macro_len=None):
         for a in w:
             ops += alpha[a]
         out.append({'backend': BACKENDS[n % 3], 'checker': CHECKERS[(n // 3) % 2], 'ntasks': 1, 'npaths': 2,
-                    'ops': json.loads(json.dumps(ops)), 'word': w})
+                    'ops': json.loads(json.dumps(ops)), 'word': w, 'scramble': (n % 4) * 1237})
     return out
 
 
@@ -1147,6 +1156,7 @@ def expand_corpus(prop):
                 for ck in CHECKERS:
                     cc = json.loads(json.dumps(c))
                     cc['backend'], cc['checker'] = b, ck
+                    cc['scramble'] = 0 if (len(out) % 2) else 4242
                     out.append((name, cc))
             if c.get('hashseeds'):
                 for hs in c['hashseeds']:
@@ -1167,7 +1177,7 @@ def nontrivial(case, v):
 
 
 def strip(case):
-    return {k: case[k] for k in ('backend', 'checker', 'ntasks', 'npaths', 'ops', 'hashseed') if k in case}
+    return {k: case[k] for k in ('backend', 'checker', 'ntasks', 'npaths', 'ops', 'hashseed', 'scramble') if k in case}
 
 
 def failing_predicate(prop):
@@ -1189,6 +1199,7 @@ def process_batch(arg):
         st.case({'history': render(case)}, nontrivial(case, v))
         st.traces += 1
         st.count('origin:' + origin)
+        st.count('mtimes:' + ('non-monotone' if case.get('scramble') else 'monotone'))
         if case.get('hashseed') is not None:
             st.count('mode:fresh-interpreter-per-invocation')
         st.count('backend:' + case['backend'])
@@ -1208,6 +1219,16 @@ def process_batch(arg):
         if v.crash:
             st.count('impl:crash-' + str(v.crash[1]))
         bad = v.c03 if prop == 'C03' else v.c04
+        if (bad or v.divergence) and not v.informational:
+            # confirm on a second execution in a fresh directory: an alarm must be reproducible (a loaded machine can
+            # make a single doit invocation fail with an OSError that has nothing to do with the history)
+            v1 = evaluate([case])[0]
+            bad1 = v1.c03 if prop == 'C03' else v1.c04
+            if bool(bad1) != bool(bad) or bool(v1.divergence) != bool(v.divergence):
+                st.count('flaky:not-reproduced')
+                crash = v.crash or v1.crash
+                st.count('flaky:' + (str(crash[1]) if crash else 'other'))
+                v, bad = v1, bad1
         if v.informational:
             st.count('informational:histories')
             if v.c03:
@@ -1232,7 +1253,9 @@ def process_batch(arg):
         elif v.divergence:
             i, what, impl, model = v.divergence
             st.divergence({'case': case, 'rendered': render(case), 'at_op': i, 'impl': impl, 'model': model,
-                           'origin': origin}, 'correspondence M2: ' + what)
+                           'origin': origin,
+                           'stderr': (v.obs[i].get('stderr') if v.obs and i < len(v.obs) else None)},
+                          'correspondence M2: ' + what)
     return st
 
 
